@@ -300,6 +300,7 @@ def run(ck):
 
     # 4. WSP: the same property on wrapped requests (defined at the end of this file)
     wsp_streams(ck)
+    multi_sessions(ck)
 
     return ck.finish(
         rule="(a) random request sequences of length 1..12 (thorough 1..16) biased along the DESCRIBE/SETUP/PLAY and ANNOUNCE/SETUP/RECORD "
@@ -529,3 +530,59 @@ def wsp_streams(ck):
     if obs and (playing < 10 or media < 10 or paused < 5):
         ck.broken.append(Broken("C12 WSP observations are vacuous (playing=%d media=%d paused=%d): the harness no "
                                 "longer exercises PLAY/PAUSE or no longer sees media" % (playing, media, paused)))
+
+
+# ---------------------------------------------------------------- several sessions at once
+def gen_multi(rng):
+    k = rng.choice([2, 2, 3])
+    sess = [[False, ""]] + [[True, LIVE_A] if rng.random() < 0.3 else [False, ""] for _ in range(k - 1)]
+    env = [[LIVE_A, 1, False]]
+    lists = []
+    for i in range(k):
+        n = rng.randint(2, 6)
+        flow = [OPTIONS, DESCRIBE, SETUP, PLAY, OPTIONS, PLAY, GET_PARAMETER, DESCRIBE, OPTIONS]
+        if rng.random() < 0.5:
+            flow = flow[1:]
+        qs = []
+        for j in range(n):
+            m = flow[j] if rng.random() < 0.75 and j < len(flow) else rng.choice([OPTIONS, DESCRIBE, SETUP, PLAY, PAUSE, OPTIONS])
+            cs = str(1000 * (i + 1) + j)
+            if m == SETUP:
+                t = rng.choice([T_TCP, T_TCP2, T_UDP, "RTP/AVP/TCP;unicast;interleaved=x", T_MC])
+                qs.append(req(SETUP, cs, LIVE_A, ctl=rng.choice(["streamid=0", "streamid=1"]), transport=t))
+            else:
+                qs.append(req(m, cs, LIVE_A if rng.random() < 0.9 else "/live/none"))
+        lists.append(qs)
+    # a random interleaving that keeps every session's own order
+    pos = [0] * k
+    hist, nth = [], []
+    while any(pos[i] < len(lists[i]) for i in range(k)):
+        i = rng.choice([i for i in range(k) if pos[i] < len(lists[i])])
+        hist.append([i, lists[i][pos[i]]])
+        nth.append(pos[i])
+        pos[i] += 1
+    # stop some responses of plain-TCP sessions after a few pieces; early requests of a connection still
+    # have flush tokens, so every header piece is a socket write of its own
+    cand = [j for j, (h, n) in enumerate(zip(hist, nth)) if not sess[h[0]][0] and n <= 1 and j < len(hist) - 1]
+    rng.shuffle(cand)
+    parks = [[j, rng.randint(1, 14)] for j in sorted(cand[:rng.randint(1, 3)])]
+    return [env, sess, hist, parks]
+
+
+def multi_sessions(ck):
+    rng = ck.rng
+    n = 1500 if ck.thorough else 90
+    cases = [gen_multi(rng) for _ in range(n)]
+    obs = ck.stream("multi-sessions", cases, None, "C12_multi", "C12_multi_ok", compare=False,
+                    nontrivial=lambda c: len(c[1]) >= 2 and len(c[3]) >= 1, sig=lambda c, e, o: "sessions-interfere",
+                    timeout=1500)
+    stopped = 0
+    for o in obs:
+        try:
+            v = vparse(o)
+            stopped += isinstance(v[0], list) and v[1] == b""
+        except Exception:
+            pass
+    ck.extra["multi_sessions_stopped_midway"] = stopped
+    if obs and stopped < len(cases) // 2:
+        ck.broken.append(Broken("C12 multi-sessions: a response was stopped mid-way in only %d of %d cases" % (stopped, len(cases))))
